@@ -1,4 +1,284 @@
-(* C15 - select() hits exactly the matching nodes; replace keeps the rest intact. *)
-From Fiddle Require Import PyBase PySlice Sig ArgStore PyCall Heap Traverse Tags Anchors.
+(* C15 - select() hits exactly the matching nodes; replace keeps the rest intact.
+   Model: Tags.post_order (selection._memoized_walk_leaves_first), Tags.matches / select_ids
+   (NodeSelection.__iter__), Tags.select_set (NodeSelection.set), Tags.rp_visit / select_replace
+   (NodeSelection.replace(value, deepcopy=False)), Tags.tag_iter (TagSelection.__iter__).
+   Statements only; proofs are in theories/Select_proofs.v.
+   Hypotheses: wf_b = children point to smaller ids (acyclic); root_ok = the root is not a dangling
+   pointer; keys_ok (only where paths are mentioned) = dict / named-tuple keys are distinct.
+   creach e h r i: object i is reached from r by child steps; under keys_ok it is the same as
+   reach e h r i (some path leads from r to i).  Hypotheses a statement does not need have been
+   dropped. *)
+From Fiddle Require Import PyBase PySlice Sig ArgStore PyCall Heap Traverse Build Build_stmt
+  Traverse_proofs Build_proofs Tags Select_proofs Anchors.
+From Coq Require Import List.
+Import ListNotations.
+Local Open Scope nat_scope.
 
-Example C15_placeholder : True. Proof. exact I. Qed.
+(* ---------------------------------------------------------------- what a selector matches *)
+
+(* A node matches iff it is a Buildable of an accepted kind whose callable is the selected one,
+   or - with match_subclasses, when both are classes - a subclass of it. *)
+Theorem C15_matches_char : forall subclasses classes sel n,
+  matches subclasses classes sel n = true <->
+  exists k fn args tags,
+    n = NBuildable k fn args tags /\ btype_ok (s_btype sel) k = true /\
+    (fn = s_fn sel \/
+     (s_match_sub sel = true /\ In (s_fn sel) classes /\ In fn classes /\
+      pair_mem subclasses fn (s_fn sel) = true)).
+Proof. exact matches_char. Qed.
+Print Assumptions C15_matches_char.
+
+(* ---------------------------------------------------------------- the walk *)
+
+(* Every object is visited at most once ... *)
+Theorem C15_post_order_nodup : forall e h, wf_b e h = true -> forall r, root_ok h r ->
+  NoDup (snd (post_order e (S (length h)) h ([], []) r)).
+Proof. exact post_order_nodup. Qed.
+Print Assumptions C15_post_order_nodup.
+
+(* ... the visited objects are exactly the reachable ones ... *)
+Theorem C15_post_order_exact : forall e h, wf_b e h = true -> forall r, root_ok h r -> forall i,
+  In i (snd (post_order e (S (length h)) h ([], []) r)) <-> creach e h r i.
+Proof. exact post_order_exact. Qed.
+Print Assumptions C15_post_order_exact.
+
+Theorem C15_post_order_exact_reach : forall e h, wf_b e h = true -> keys_ok h ->
+  forall r, root_ok h r -> forall i,
+  In i (snd (post_order e (S (length h)) h ([], []) r)) <-> reach e h r i.
+Proof. exact post_order_exact_reach. Qed.
+Print Assumptions C15_post_order_exact_reach.
+
+(* ... and an object comes after everything it points to (leaves first). *)
+Theorem C15_post_order_children_first : forall e h, wf_b e h = true -> forall r, root_ok h r ->
+  forall i n j,
+  In i (snd (post_order e (S (length h)) h ([], []) r)) ->
+  nth_error h i = Some n -> In (RP j) (children e n) ->
+  before j i (snd (post_order e (S (length h)) h ([], []) r)).
+Proof. exact post_order_children_first. Qed.
+Print Assumptions C15_post_order_children_first.
+
+(* ---------------------------------------------------------------- select *)
+
+(* Iterating a selection yields each reachable matching Buildable exactly once, and nothing
+   else - however many parents share it and however deeply it is nested in other matches. *)
+Theorem C15_select_nodup : forall e subclasses classes sel h,
+  wf_b e h = true -> forall r, root_ok h r ->
+  NoDup (select_ids e subclasses classes sel h r).
+Proof. exact select_nodup. Qed.
+Print Assumptions C15_select_nodup.
+
+Theorem C15_select_exact : forall e subclasses classes sel h,
+  wf_b e h = true -> forall r, root_ok h r -> forall i,
+  In i (select_ids e subclasses classes sel h r) <->
+  creach e h r i /\ exists n, nth_error h i = Some n /\ matches subclasses classes sel n = true.
+Proof. exact select_exact. Qed.
+Print Assumptions C15_select_exact.
+
+Theorem C15_select_exact_reach : forall e subclasses classes sel h,
+  wf_b e h = true -> keys_ok h -> forall r, root_ok h r -> forall i,
+  In i (select_ids e subclasses classes sel h r) <->
+  reach e h r i /\ exists n, nth_error h i = Some n /\ matches subclasses classes sel n = true.
+Proof. exact select_exact_reach. Qed.
+Print Assumptions C15_select_exact_reach.
+
+(* every selected id holds a (matching) Buildable *)
+Theorem C15_select_ids_buildable : forall e subclasses classes sel h r i,
+  In i (select_ids e subclasses classes sel h r) ->
+  exists k fn args tags, nth_error h i = Some (NBuildable k fn args tags) /\
+                         matches subclasses classes sel (NBuildable k fn args tags) = true.
+Proof. exact select_ids_buildable. Qed.
+Print Assumptions C15_select_ids_buildable.
+
+(* ---------------------------------------------------------------- set *)
+
+(* NodeSelection.set( **kvs ): no object is created or moved; objects outside the selection are
+   untouched; a selected Buildable keeps its kind, callable and tags and gets exactly the given
+   attributes assigned, in order. *)
+Theorem C15_select_set_exact : forall e subclasses classes sel h r kvs,
+  wf_b e h = true -> root_ok h r ->
+  let ids := select_ids e subclasses classes sel h r in
+  let h' := select_set e subclasses classes sel h r kvs in
+  length h' = length h /\
+  (forall i, ~ In i ids -> nth_error h' i = nth_error h i) /\
+  (forall i k fn args tags, In i ids -> nth_error h i = Some (NBuildable k fn args tags) ->
+     nth_error h' i =
+     Some (NBuildable k fn (fold_left (fun a kv => sset a (KName (fst kv)) (snd kv)) kvs args) tags)).
+Proof. exact select_set_exact. Qed.
+Print Assumptions C15_select_set_exact.
+
+(* ---------------------------------------------------------------- replace *)
+
+(* NodeSelection.replace(x, deepcopy=False).  sreach ... r i: object i is reached from r without
+   entering a matching node (matching nodes themselves are reached, their contents are not, unless
+   by another way).  memo1 maps every processed object to what stands for it afterwards. *)
+Theorem C15_replace_identity : forall e subclasses classes sel x h,
+  wf_b e h = true -> forall r, root_ok h r -> forall memo1 h1 r1,
+  rp_visit e subclasses classes (S (length h)) sel x ([], h) r = ((memo1, h1), r1) ->
+  (* the value returned for the root; the memo is a function, defined exactly on the objects
+     reached outside matching nodes *)
+  map_ref memo1 r = Some r1 /\
+  NoDup (map fst memo1) /\
+  (forall i, (exists v, memo_get memo1 i = Some v) <-> sreach e subclasses classes sel h r i) /\
+  (* (a) nothing is removed, and an object is modified only if it is a processed non-matching
+     Buildable *)
+  length h <= length h1 /\
+  (forall i n, nth_error h i = Some n ->
+               memo_get memo1 i = None \/ matches subclasses classes sel n = true \/ is_bld n = false ->
+               nth_error h1 i = Some n) /\
+  (* (b) a processed Buildable that does not match keeps its identity; it is rebuilt in place
+     over the images of its arguments: same kind, callable, argument keys; empty tag sets dropped *)
+  (forall i ri n, memo_get memo1 i = Some ri -> nth_error h i = Some n ->
+                  is_bld n = true -> matches subclasses classes sel n = false ->
+                  ri = RP i /\
+                  exists rs, map (map_ref memo1) (children e n) = map Some rs /\
+                             nth_error h1 i = Some (with_children e n rs)) /\
+  (* (c) a processed matching node is replaced by x *)
+  (forall i ri n, memo_get memo1 i = Some ri -> nth_error h i = Some n ->
+                  matches subclasses classes sel n = true -> ri = x) /\
+  (* (d) any other container is re-created as a new object over the images of its elements *)
+  (forall i ri n, memo_get memo1 i = Some ri -> nth_error h i = Some n ->
+                  traversable n = true -> is_bld n = false ->
+                  exists rs k, map (map_ref memo1) (children e n) = map Some rs /\
+                               ri = RP k /\ length h <= k /\
+                               nth_error h1 k = Some (with_children e n rs)) /\
+  (* (e) objects the traversers do not enter are kept *)
+  (forall i ri n, memo_get memo1 i = Some ri -> nth_error h i = Some n ->
+                  traversable n = false -> ri = RP i).
+Proof. exact replace_identity. Qed.
+Print Assumptions C15_replace_identity.
+
+(* (b) spelled out for a Buildable *)
+Theorem C15_replace_buildable_kept : forall e subclasses classes sel x h,
+  wf_b e h = true -> forall r, root_ok h r -> forall i ri k fn args tags,
+  let res := rp_visit e subclasses classes (S (length h)) sel x ([], h) r in
+  memo_get (fst (fst res)) i = Some ri -> nth_error h i = Some (NBuildable k fn args tags) ->
+  matches subclasses classes sel (NBuildable k fn args tags) = false ->
+  ri = RP i /\
+  exists rs, map (map_ref (fst (fst res))) (map snd (flat_args e fn args)) = map Some rs /\
+    nth_error (snd (fst res)) i =
+    Some (NBuildable k fn (combine (map fst (flat_args e fn args)) rs)
+            (filter (fun kt => match snd kt with [] => false | _ => true end) tags)).
+Proof. exact replace_buildable_kept. Qed.
+Print Assumptions C15_replace_buildable_kept.
+
+(* objects that are not reached outside matching nodes are untouched by select_replace *)
+Theorem C15_replace_unreached : forall e subclasses classes sel x h,
+  wf_b e h = true -> forall r, root_ok h r -> forall i,
+  ~ sreach e subclasses classes sel h r i -> i < length h ->
+  nth_error (select_replace e subclasses classes sel h r x) i = nth_error h i.
+Proof. exact replace_unreached. Qed.
+Print Assumptions C15_replace_unreached.
+
+(* every processed object is reachable *)
+Theorem C15_replace_processed_reach : forall e subclasses classes sel x h,
+  wf_b e h = true -> forall r, root_ok h r -> forall i v,
+  memo_get (fst (fst (rp_visit e subclasses classes (S (length h)) sel x ([], h) r))) i = Some v ->
+  creach e h r i.
+Proof. exact replace_processed_reach. Qed.
+Print Assumptions C15_replace_processed_reach.
+
+(* distinct containers are re-created as distinct new objects (and a shared one only once) *)
+Theorem C15_replace_fresh_distinct : forall e subclasses classes sel x h,
+  wf_b e h = true -> forall r, root_ok h r -> forall i j ri rj ni nj,
+  let memo1 := fst (fst (rp_visit e subclasses classes (S (length h)) sel x ([], h) r)) in
+  memo_get memo1 i = Some ri -> memo_get memo1 j = Some rj ->
+  nth_error h i = Some ni -> nth_error h j = Some nj ->
+  traversable ni = true -> is_bld ni = false -> traversable nj = true -> is_bld nj = false ->
+  i <> j -> ri <> rj.
+Proof. exact replace_fresh_distinct. Qed.
+Print Assumptions C15_replace_fresh_distinct.
+
+(* ---------------------------------------------------------------- tag selections *)
+
+(* list(select(cfg, tag=T)): node by node in the order of the walk, and inside a node in the order
+   of __argument_tags__, one value per argument with a tag that is a subclass of T: the stored
+   value, else the default (tag_default: the parameter's default unless it is a default_factory,
+   NO_VALUE otherwise). *)
+Theorem C15_tag_iter_flat : forall e subtags h r T,
+  tag_iter e subtags h r T =
+  flat_map (fun i => match nth_error h i with
+                     | Some (NBuildable _ fn args tags) =>
+                         map (fun key => match sget args key with
+                                         | Some v => v
+                                         | None => tag_default e fn key
+                                         end)
+                             (map fst (filter (fun kt => tag_matches subtags T (snd kt)) tags))
+                     | _ => []
+                     end)
+           (snd (post_order e (S (length h)) h ([], []) r)).
+Proof. exact tag_iter_flat. Qed.
+Print Assumptions C15_tag_iter_flat.
+
+Theorem C15_tag_iter_length : forall e subtags h r T,
+  length (tag_iter e subtags h r T) =
+  list_sum (map (fun i => match nth_error h i with
+                          | Some (NBuildable _ _ _ tags) =>
+                              length (filter (fun kt => tag_matches subtags T (snd kt)) tags)
+                          | _ => 0
+                          end) (snd (post_order e (S (length h)) h ([], []) r))).
+Proof. exact tag_iter_length. Qed.
+Print Assumptions C15_tag_iter_length.
+
+Theorem C15_tag_iter_in : forall e subtags h r T, wf_b e h = true -> root_ok h r -> forall v,
+  In v (tag_iter e subtags h r T) <->
+  exists i k fn args tags key ts,
+    creach e h r i /\ nth_error h i = Some (NBuildable k fn args tags) /\
+    In (key, ts) tags /\ tag_matches subtags T ts = true /\
+    (sget args key = Some v \/ (sget args key = None /\ v = tag_default e fn key)).
+Proof. exact tag_iter_in. Qed.
+Print Assumptions C15_tag_iter_in.
+
+(* what tag_default is *)
+Theorem C15_tag_default_char : forall e fn key,
+  tag_default e fn key =
+  match key with
+  | KName nm =>
+      match find_param (sig_of e fn) nm with
+      | Some p => if pfactory p then NoValue
+                  else match pdefault p with Some d => d | None => NoValue end
+      | None => NoValue
+      end
+  | KPos z =>
+      match nth_error (sig_of e fn) (Z.to_nat z) with
+      | Some p => if is_prefix_kind (pk p)
+                  then match pdefault p with Some d => d | None => NoValue end
+                  else NoValue
+      | None => NoValue
+      end
+  end.
+Proof. reflexivity. Qed.
+Print Assumptions C15_tag_default_char.
+
+(* ---------------------------------------------------------------- non-vacuity *)
+
+Theorem C15_example_hyps : wf_b sx_env sx_heap = true /\ keys_ok sx_heap /\ root_ok sx_heap (RP 5).
+Proof. exact sx_hyps. Qed.
+Print Assumptions C15_example_hyps.
+
+(* a Sub config shared by a Base config (matching), a list and the root tuple *)
+Theorem C15_example :
+  select_ids sx_env sx_subclasses sx_classes sx_sel sx_heap (RP 5) = [0; 1] /\
+  select_ids sx_env sx_subclasses sx_classes sx_sel_exact sx_heap (RP 5) = [1] /\
+  nth_error (select_set sx_env sx_subclasses sx_classes sx_sel sx_heap (RP 5) [(0%N, RA (AInt 9))]) 1 =
+    Some (NBuildable BConfig 20%N [(KName 1%N, RP 0); (KName 0%N, RA (AInt 9))] []) /\
+  select_replace sx_env sx_subclasses sx_classes sx_sel sx_heap (RP 5) sx_x =
+    [ NBuildable BConfig 21%N [(KName 0%N, RA (AInt 1))] [];
+      NBuildable BConfig 20%N [(KName 1%N, RP 0)] [];
+      NList [RP 0; RA (AInt 2)];
+      NBuildable BPartial 30%N [(KName 2%N, sx_x); (KName 3%N, RP 6)]
+                 [(KName 2%N, [50%N]); (KName 4%N, [51%N])];
+      NSet false [AInt 7];
+      NTuple [RP 3; RP 0; RP 4];
+      NList [sx_x; RA (AInt 2)];
+      NTuple [RP 3; sx_x; RP 4] ] /\
+  tag_iter sx_env sx_subtags sx_heap (RP 5) 50%N = [RP 1; RA (AInt 5)].
+Proof. vm_compute. repeat split. Qed.
+Print Assumptions C15_example.
+
+(* root_ok is needed: a dangling root is reachable from itself (by the empty path) but the walk
+   yields nothing *)
+Theorem C15_post_order_exact_needs_root_ok :
+  ~ (forall e h, wf_b e h = true -> forall r i,
+       In i (snd (post_order e (S (length h)) h ([], []) r)) <-> creach e h r i).
+Proof. exact post_order_exact_needs_root_ok. Qed.
+Print Assumptions C15_post_order_exact_needs_root_ok.
